@@ -26,31 +26,34 @@ Proof. intros Hs. apply (JS.constructors_agree CM.check_valid store Hs). Qed.
 Section WithTok.
   Variable qtok : Q -> str.
   Variable tokq : str -> option Q.
+  Variable reo : option (list (list Q)).
 
   Lemma roundtrip_ext (store : str -> option str) (e : jext) :
     (forall b, store b = Some b) ->
     valid e -> ext_wf_json e = true -> aff_toks_ok qtok (hdr_of e) = true -> aff_rt qtok tokq (hdr_of e) ->
-    JM.to_json CM.check_valid (to_content qtok e) = Ok (JM.print (to_content qtok e)) /\
-    JM.from_json CM.check_valid (JM.print (to_content qtok e)) = Ok (to_content qtok e) /\
-    JM.from_runtime_repr CM.check_valid (to_content qtok e) = Ok (to_content qtok e) /\
-    JM.save_load CM.check_valid store (to_content qtok e) = Ok (to_content qtok e) /\
-    exists e', of_content tokq (to_content qtok e) = Some e' /\ ext_equiv e e'.
+    reo_toks_ok qtok reo = true -> reo_rt qtok tokq reo ->
+    JM.to_json CM.check_valid (to_content_r qtok reo e) = Ok (JM.print (to_content_r qtok reo e)) /\
+    JM.from_json CM.check_valid (JM.print (to_content_r qtok reo e)) = Ok (to_content_r qtok reo e) /\
+    JM.from_runtime_repr CM.check_valid (to_content_r qtok reo e) = Ok (to_content_r qtok reo e) /\
+    JM.save_load CM.check_valid store (to_content_r qtok reo e) = Ok (to_content_r qtok reo e) /\
+    (exists e', of_content tokq (to_content_r qtok reo e) = Some e' /\ ext_equiv e e') /\
+    reo_of_content tokq (to_content_r qtok reo e) = Some reo.
   Proof.
-    intros Hs Hv Hwf Ha Hrt.
-    pose proof (wf_to_content qtok e (proj1 (proj2 Hv)) Hwf Ha) as Hw.
-    pose proof (proj1 (valid_to_content qtok e Hv)) as Hck.
-    pose proof (to_json_valid qtok e Hv) as Htj.
+    intros Hs Hv Hwf Ha Hrt Hr Hrrt.
+    pose proof (wf_to_content qtok reo e (proj1 (proj2 Hv)) Hwf Ha Hr) as Hw.
+    pose proof (proj1 (valid_to_content qtok reo e Hv)) as Hck.
+    pose proof (to_json_valid qtok reo e Hv) as Htj.
     split; [exact Htj|]. split; [apply (from_to_content _ _ Hw Htj)|].
     split; [apply (JS.from_runtime_repr_iff_valid CM.check_valid); exact Hck|].
     split; [apply (JS.file_roundtrip CM.check_valid store Hs _ Hw Hck)|].
-    apply (of_to_content qtok tokq e Hv Hrt).
+    split; [apply (of_to_content qtok tokq reo e Hv Hrt) | apply (reo_of_to_content qtok tokq reo e Hrrt)].
   Qed.
 
   (** * C10: the gates hand back valid extensions *)
 
   Definition abstracts_valid (c : jv) : Prop :=
     forall e, of_content tokq c = Some e ->
-              Forall (fun n => 1 <= n) (shape (hdr_of e)) -> nondegenerate e -> valid e.
+              Forall (fun n => 1 <= n) (shape (hdr_of e)) -> mult1_single e -> valid e.
 
   Lemma gates_ext :
     (forall c, CM.check_valid c = Ok tt -> abstracts_valid c) /\
@@ -72,11 +75,11 @@ Section WithTok.
   (** and every gate lets the content of a valid extension through *)
   Lemma gates_accept_valid (e : jext) :
     valid e ->
-    CM.from_runtime_repr (to_content qtok e) = Ok (to_content qtok e) /\
-    (forall (parse : str -> res jv) s, parse s = Ok (to_content qtok e) -> CM.from_json parse s = Ok (to_content qtok e)) /\
-    CM.wrapper_init [(TC.dcm_meta_ecode, to_content qtok e)] false JNull = Ok (Some 0, to_content qtok e).
+    CM.from_runtime_repr (to_content_r qtok reo e) = Ok (to_content_r qtok reo e) /\
+    (forall (parse : str -> res jv) s, parse s = Ok (to_content_r qtok reo e) -> CM.from_json parse s = Ok (to_content_r qtok reo e)) /\
+    CM.wrapper_init [(TC.dcm_meta_ecode, to_content_r qtok reo e)] false JNull = Ok (Some 0, to_content_r qtok reo e).
   Proof.
-    intros Hv. pose proof (proj1 (valid_to_content qtok e Hv)) as Hck. split; [|split].
+    intros Hv. pose proof (proj1 (valid_to_content qtok reo e Hv)) as Hck. split; [|split].
     - unfold CM.from_runtime_repr. rewrite Hck. reflexivity.
     - intros parse s Hp. unfold CM.from_json. rewrite Hp. cbn [bind]. rewrite Hck. reflexivity.
     - unfold CM.wrapper_init, CM.screen. rewrite Z.eqb_refl, Hck. cbn [bind snd]. rewrite Hck. reflexivity.
